@@ -333,16 +333,16 @@ func init() {
 					x := g.Struct(k, 5+idx%3, true)
 					roundTrip(c, "json", vmodel.JSON, jsonPairs, x, fmt.Sprintf("deep %s depth<=%d", k.Name, 5+idx%3), nil)
 				}},
-				{Name: "random", N: tierN(tier, 20000, 400000), Run: func(c *Ctx, idx int) {
+				{Name: "random", N: tierN(tier, 20000, 80000), Run: func(c *Ctx, idx int) {
 					g := caseGen(c, false, idx)
-					x, label := randomValue(g, tierN(tier, 2, 4))
+					x, label := randomValue(g, tierN(tier, 2, 3))
 					c.Count("random-kind:"+kindOf(x), 1)
 					roundTrip(c, "json", vmodel.JSON, jsonPairs, x, label, nil)
 				}},
 			}
 		},
 		Floors: func(tier string) map[string]int64 {
-			return map[string]int64{"roundtrips": int64(tierN(tier, 30000, 300000))}
+			return map[string]int64{"roundtrips": int64(tierN(tier, 30000, 200000))}
 		},
 		Assumptions: []string{
 			"the canonical form (vmodel.Canon, reflect-based) implements exactly the normal form the property documents",
